@@ -569,6 +569,7 @@ func runReserved(c *core.Ctx) {
 			declOf[f] = fd
 		}
 	}
+	badSplit, badSplitName, goodSplit := token.NoPos, "", false
 	var frames []*ast.FuncDecl
 	inFrames := map[*ast.FuncDecl]bool{}
 	var addFrame func(fd *ast.FuncDecl, depth int)
@@ -613,6 +614,20 @@ func runReserved(c *core.Ctx) {
 				if ex, ok := x.(ast.Expr); ok {
 					if s, ok := constString(sp, ex); ok {
 						reserved[s] = true
+					}
+				}
+				// the name is cut into its components: SplitAfter keeps the separator on every component but the last,
+				// SplitN leaves the tail uncut — either way only part of the components can equal a reserved name
+				if call, ok := x.(*ast.CallExpr); ok {
+					if f, ok := typeutilCallee(sp, call).(*types.Func); ok && f.Pkg() != nil && f.Pkg().Path() == "strings" {
+						switch f.Name() {
+						case "SplitAfter", "SplitAfterN", "SplitN", "Cut", "Fields":
+							if badSplit == token.NoPos {
+								badSplit, badSplitName = call.Pos(), f.Name()
+							}
+						case "Split":
+							goodSplit = true
+						}
 					}
 				}
 				if call, ok := x.(*ast.CallExpr); ok && depth < 2 {
@@ -674,6 +689,11 @@ func runReserved(c *core.Ctx) {
 			}
 			return true
 		})
+	}
+	if badSplit != token.NoPos {
+		c.Fail("components", badSplit, "the repository name is cut with strings.%s before its components are compared with the reserved names: not every component is compared as it is used in the path (a reserved name in the middle of a nested repository name passes)", badSplitName)
+	} else if goodSplit {
+		c.Pass("components", token.NoPos, "the repository name is cut into its components with strings.Split before they are compared with the reserved names")
 	}
 	if len(created) == 0 {
 		c.Unresolved("created-names", "no filepath.Join(<repo>.path, CONST, …) found in the store")
